@@ -11,14 +11,17 @@ History language (operations separated by ';'):
   actor K | bg K spin|sleep|pipe|spawn | load I aK|g|gm NNP FLAGS ok|invalid|nodefault|oversize | supp aK|g
   | drop | exit K | wake | probe | sleep MS
 """
+import hashlib
 import os
+import platform
 import random
 import re
 import shutil
 import threading
 import time
 
-from common import COQ
+import ambient
+from common import COQ, GOENV
 from corechecks import proof_step, finish_with_proof_status, rewrite_with_replay_cmd
 
 TSYNC, LOG = 1, 2
@@ -101,20 +104,51 @@ def setup(ctx, prop_file, theorems):
 
 
 # ------------------------------------------------------------------------------------------------ running histories
-def run_histories(ctx, hists, jobs=8):
+def host_machine():
+    return platform.machine() or "x86_64"
+
+
+def run_histories(ctx, hists, jobs=8, force_hostile=None):
     """hists: list of (id, text). Returns dict id -> parsed observation."""
-    inp = "".join("%s %s\n" % (i, t) for i, t in hists)
-    r = ctx.run_harness(["loadhist", str(jobs)], inp, timeout=900)
-    if r.returncode != 0:
-        raise RuntimeError("harness loadhist failed: " + r.stderr[-2000:])
+    # every fourth history runs in hostile surroundings (lib/ambient.py): the environment variables the sources could
+    # ask for are set, uname(2) reports a 2.6 kernel (personality UNAME26), no file can be opened while a plain load
+    # runs. The kernel's answers to seccomp(2)/prctl(2) do not depend on any of it, so the same model judges them.
+    def hostile_id(i):
+        if force_hostile is not None:
+            return force_hostile
+        return int(hashlib.sha256(str(i).encode()).hexdigest(), 16) % 4 == 0
+    pre = [p for p in ambient.personality_prefixes() if "--uname-2.6" in p][:1]
+    pre = [["setarch", host_machine(), "--uname-2.6"]] if pre else []
+    parts = [([h for h in hists if not hostile_id(h[0])], None, None)]
+    hh = [h for h in hists if hostile_id(h[0])]
+    # ... and half of those with a single P (GOMAXPROCS=1: what a one-CPU machine or cpuset gives a Go process)
+    one = [h for h in hh if int(hashlib.sha256(str(h[0]).encode()).hexdigest(), 16) % 8 == 0 or force_hostile]
+    hh = [h for h in hh if h not in one]
+    if hh:
+        parts.append((hh, dict(ambient.noise_env(GOENV), VERIF_LOAD_NOFILE="1"), pre[0] if pre else None))
+    if one:
+        parts.append((one, dict(ambient.noise_env(GOENV), VERIF_LOAD_NOFILE="1", GOMAXPROCS="1"), pre[0] if pre else None))
+    stdout = ""
+    hostile = set()
+    for (hs, env, prefix) in parts:
+        if not hs:
+            continue
+        inp = "".join("%s %s\n" % (i, t) for i, t in hs)
+        r = ctx.run_harness(["loadhist", str(jobs)], inp, timeout=900, env=env, prefix=prefix)
+        if r.returncode != 0:
+            raise RuntimeError("harness loadhist failed: " + r.stderr[-2000:])
+        stdout += r.stdout
+        if env:
+            hostile.update(str(i) for i, _ in hs)
     out = {}
     cur = None
-    for ln in r.stdout.splitlines():
+    for ln in stdout.splitlines():
         f = ln.split()
         if not f:
             continue
         if f[0] == "H":
-            cur = dict(id=f[1], text=ln.split(" ", 2)[2], steps={}, K={}, X=[], uid=[], exit=None, ended=False)
+            cur = dict(id=f[1], text=ln.split(" ", 2)[2], steps={}, K={}, X=[], uid=[], exit=None, ended=False,
+                       surroundings="hostile (environment variables set, uname reports 2.6, no descriptors during plain loads; GOMAXPROCS=1 for every second such history and in replays)" if f[1] in hostile else "plain")
             out[f[1]] = cur
             continue
         if cur is None:
@@ -477,6 +511,10 @@ def direct_C11(h):
             if st_tid in T1 and T1[st_tid][2] != 1:
                 bad.append(dict(step=i, what="NoNewPrivs was requested but the thread that called seccomp(2) (%d) does not have the bit" % st_tid,
                                 expected="NoNewPrivs: 1", actual="NoNewPrivs: %d" % T1[st_tid][2]))
+        if nnp and nil and not stp["C"] and who.startswith("a") and ct in T1 and T1[ct][2] != 1:
+            # nil with the bit requested and no seccomp(2) call seen: the calling thread (a pinned actor) must carry the bit all the same
+            bad.append(dict(step=i, what="NoNewPrivs was requested and the load returned nil, but the calling thread (%d) does not have the bit" % ct,
+                            expected="NoNewPrivs: 1", actual="NoNewPrivs: %d" % T1[ct][2]))
         if nnp and valid and not priv and flags in (0, LOG, 4, 6) and not nil:
             bad.append(dict(step=i, what="an unprivileged load of a valid filter with NoNewPrivs requested failed", expected="nil",
                             actual=" ".join(stp["R"][:2]), migrated=stp["M"]))
@@ -541,6 +579,15 @@ def gen_C09(rng, n):
         ";".join("load %d a0 0 0 mid" % i for i in range(8, 17)) + ";" + ";".join("load %d a0 0 0 ok" % i for i in range(17, 30)) + ";probe",
         "actor 0;actor 1;" + ";".join("load %d a0 1 1 midnames" % i for i in range(1, 6)) + ";" + ";".join("load %d a0 0 0 big" % i for i in range(6, 13)) + ";" +
         ";".join("load %d a1 0 1 mid" % i for i in range(13, 20)) + ";" + ";".join("load %d a0 0 %d ok" % (i, i % 4) for i in range(20, 34)) + ";probe",
+    ]
+    forced += [
+        # thread-sync with the "report ESRCH" bit (16: known to the kernel, unnamed in the package) refused because another
+        # thread carries a divergent filter: the kernel answers ESRCH instead of a thread id - still a refusal
+        "actor 0;actor 1;load 1 a1 0 0 ok;load 2 a0 0 17 ok;load 3 a0 1 19 ok;load 4 a1 0 17 ok;load 5 a1 0 1 ok;probe",
+        "drop;actor 0;actor 1;load 1 a1 1 0 ok;load 2 a0 1 17 ok;exit 1;load 2 a0 1 17 ok;probe",
+        # the very same request again with only the no_new_privs wish changed (same policy, same flags)
+        "actor 0;load 1 a0 0 1 ok;load 1 a0 1 1 ok;load 1 a0 1 1 ok;probe",
+        "actor 0;actor 1;load 1 a0 0 3 ok;load 1 a1 1 3 ok;load 1 a0 1 3 ok;probe",
     ]
     forced += [
         # two loads from two threads that overlap between their prctl and seccomp steps: each installs ITS program
@@ -673,6 +720,12 @@ def gen_C11(rng, thorough):
         "actor 0;load 1 a0 0 0 ok;load 2 a0 1 0 ok;probe",
         "actor 0;actor 1;load 1 a0 0 1 ok;load 2 a1 1 0 ok;load 3 a0 1 2 ok;probe",
         "actor 0;load 1 a0 0 0 ok;drop;load 2 a0 1 0 ok;load 3 g 1 0 ok;probe",
+        # the very same request again (same policy, same flags) with only the no_new_privs wish changed
+        "actor 0;load 1 a0 0 1 ok;load 1 a0 1 1 ok;probe",
+        "actor 0;load 1 a0 0 0 ok;load 1 a0 1 0 ok;load 1 a0 1 0 ok;probe",
+        "actor 0;actor 1;load 1 a0 0 3 ok;load 1 a1 1 3 ok;probe",
+        "actor 0;load 1 g 0 1 mid;load 1 g 1 1 mid;probe",
+        "actor 0;load 1 a0 0 17 ok;load 1 a0 1 17 ok;probe",
     ]
     # a large policy (tens of milliseconds between entering LoadFilter and the seccomp call) loaded from an unpinned
     # goroutine under scheduling pressure: bit and filter must still land on the same thread
@@ -742,7 +795,7 @@ def run_check(ctx, prop, prop_file, theorems, hist_texts, replay, rule, jobs=8):
         hist_texts = [replay["history"]]
     hists = [("h%d" % i, t) for i, t in enumerate(hist_texts)]
     t0 = time.time()
-    obs = run_histories(ctx, hists, jobs=jobs)
+    obs = run_histories(ctx, hists, jobs=jobs, force_hostile=None if not (replay and replay.get("history")) else str(replay.get("surroundings", "")).startswith("hostile"))
     ctx.log("%d histories executed by the implementation in %.1fs" % (len(obs), time.time() - t0))
     nbad = 0
     reported = 0
@@ -759,7 +812,7 @@ def run_check(ctx, prop, prop_file, theorems, hist_texts, replay, rule, jobs=8):
                 nbad += 1
                 bad_hist.add(hid)
                 if reported < 3:
-                    p = ctx.violation("counterexample", dict(history=h["text"], what="the process did not survive a call of Supported(): probing for support changed process state",
+                    p = ctx.violation("counterexample", dict(history=h["text"], surroundings=h["surroundings"], what="the process did not survive a call of Supported(): probing for support changed process state",
                                                              operation=" ".join(last["op"]), expected="Supported() returns and no task changes", actual="child process ended with %s" % h["exit"]), True)
                     rewrite_with_replay_cmd(ctx, p)
                     reported += 1
@@ -770,7 +823,7 @@ def run_check(ctx, prop, prop_file, theorems, hist_texts, replay, rule, jobs=8):
             nbad += 1
             bad_hist.add(hid)
             if reported < 3:
-                p = ctx.violation("counterexample", dict(history=h["text"], what=b["what"], step=b["step"],
+                p = ctx.violation("counterexample", dict(history=h["text"], surroundings=h["surroundings"], what=b["what"], step=b["step"],
                                                          operation=" ".join(h["steps"][b["step"]]["op"]), expected=b.get("expected"), actual=b.get("actual"),
                                                          result=" ".join(h["steps"][b["step"]]["R"][:2]), detail={k: v for k, v in b.items() if k not in ("what", "step", "expected", "actual")}), True)
                 rewrite_with_replay_cmd(ctx, p)
@@ -803,7 +856,7 @@ def run_check(ctx, prop, prop_file, theorems, hist_texts, replay, rule, jobs=8):
                         stp = obs[hid]["steps"].get(d[0])
                         p = ctx.violation("correspondence", dict(
                             stream="load histories (%s): model replay (LoaderReplay.replay over the regenerated skeletons) vs the implementation on the running kernel" % prop,
-                            history=obs[hid]["text"], step=d[0], operation=" ".join(stp["op"]) if stp and stp["op"] else None,
+                            history=obs[hid]["text"], surroundings=obs[hid]["surroundings"], step=d[0], operation=" ".join(stp["op"]) if stp and stp["op"] else None,
                             thread=d[1], observable=KIND_NAMES.get(d[2], d[2]), model=d[3], implementation=d[4],
                             all_differences=[dict(step=x[0], thread=x[1], observable=KIND_NAMES.get(x[2], x[2]), model=x[3], implementation=x[4]) for x in mine[:8]],
                             what="the model of the loader and the implementation differ on this history; the property text itself was not seen to fail on it"), False)
